@@ -73,6 +73,17 @@ func c17(e *Env) {
 	}
 	if p, ok := replyMsg(pr).(*message.PreparedResult); ok {
 		w.HostileUnpreparedID = p.PreparedQueryId
+		// ... and the proxy's own re-PREPAREs of it (sent after such an UNPREPARED) are answered
+		// maliciously too, by the nodes that misbehave
+		outs := []world.Outcome{world.OK}
+		for k := 0; k < 12; k++ {
+			if c.Choose("evilreprepare", 2) == 1 {
+				outs = append(outs, world.Outcome{Kind: world.OutHostile, Name: "hostile", Hostile: c.Choose("hostilekind", len(world.HostileKinds)) + len(world.HostileKinds)*c.Choose("hostilevariant", 128)})
+			} else {
+				outs = append(outs, world.OK)
+			}
+		}
+		w.Script["tok0x"] = outs
 	}
 	canaryOK := 0
 	var canaryPending []*world.ClientReq
